@@ -1030,7 +1030,8 @@ class LogixDriver(CIPDriver):
                 self._cfg["use_instance_ids"],
             )
 
-            return_size = _tag_return_size(parsed_tag) + len(request.message)
+            request.build_message()
+            return_size = _tag_return_size(parsed_tag) + len(request.message) + 2
             if return_size > self.connection_size:
                 request = ReadTagFragmentedRequestPacket.from_request(self._sequence, request)
 
